@@ -12,6 +12,7 @@ through clean SET_ADDRESS / SET_CONFIGURATION transfers so that "no state change
 import hashlib
 
 from dsim.kernel import Violations
+from models.usb2_wire import gen_idle_data
 from models import usb2
 from models.usb2 import UTMIHost
 from models.usb2_ctrl import Txn, StreamFeeder, setup_bytes, decode_setup, is_data
@@ -147,6 +148,7 @@ def gen(rng, tier, index):
                 ops.append({"op": "idle", "n": rng.randint(1, 60)})
     ops.append({"op": "in1", "ack": True})
     ops.append({"op": "get_config"})
+    cfg["idle_data"] = gen_idle_data(rng)
     return {"engine": ENGINE, "config": cfg, "ops": ops}
 
 
@@ -382,7 +384,7 @@ def run(scn):
                 st["req"]["in_seen"] += 1
         yield from h.idle(SLACK + 4)
 
-    host = UTMIHost(script, byte_period=cfg["byte_period"], pre=cfg["pre"], post=cfg["post"],
+    host = UTMIHost(script, idle_data=cfg.get("idle_data"), byte_period=cfg["byte_period"], pre=cfg["pre"], post=cfg["post"],
                     txready=(cfg["txready"] if cfg["txready"] == "always" else tuple(cfg["txready"])))
     feeder = StreamFeeder("in1_", seed=len(ops))
     per_op = (80 + 16) * (cfg["byte_period"] + 1) + 8 * 100 + 4 * cfg["rest"] + 60
